@@ -6,7 +6,7 @@ import warnings
 
 import numpy as np
 
-from vlib.common import CaseResult, exc_mech, rng_for
+from vlib.common import CaseResult, exc_mech, off, rng_for
 
 ID = "C14"
 RULE = (
@@ -87,7 +87,9 @@ def gen_case(rng, idx, seed):
             # a second change of variables applied to the new variable (x = b1(b2(z)))
             # (only after Var.transform: the deprecated GraphBuilder.transform has already collected the nodes of the variable)
             "chain2": str(rng.choice(["none", "none", "instance", "class"])) if entry.startswith("var_") else "none",
-            "chain2_scale": float(rng.choice([0.5, 2.0, 3.0]))}
+            "chain2_scale": float(rng.choice([0.5, 2.0, 3.0])),
+            # whether the log-density is stored per observation or summed
+            "per_obs": bool(rng.random() < 0.6)}
 
 
 def support_value(rng, fam, shape, args=None):
@@ -161,7 +163,9 @@ def run_case(case):
             given = float(v0) if not shape else [float(e) for e in v0]
         else:
             given = jnp.asarray(v0, ft)
-        var = lsl.Var(given, lsl.Dist(Dist, **dargs), name="x")
+        dist0 = lsl.Dist(Dist, **dargs)
+        dist0.per_obs = bool(case.get("per_obs", True))
+        var = lsl.Var(given, dist0, name="x")
         given0 = np.array(np.asarray(given), copy=True)
         var.parameter = case["parameter"]
         barg_var = None
@@ -281,6 +285,10 @@ def run_case(case):
                           f"new strong={tvar.strong} has_dist={tvar.has_dist}", w)
         if float(np.sum(np.asarray(var.log_prob))) != 0.0:
             res.violation("original-keeps-distribution", f"original variable still contributes log_prob {var.log_prob}", w)
+        res.mon("per_obs_setting_carried_over")
+        if bool(tvar.dist_node.per_obs) != bool(case.get("per_obs", True)):
+            res.violation("per-obs-not-carried", f"the original distribution had per_obs={case.get('per_obs', True)}, the new "
+                          f"variable's distribution has per_obs={tvar.dist_node.per_obs}", w)
         res.mon("original_value_unchanged")
         got0 = np.asarray(var.value, np.float64)
         if got0.shape != np.shape(v0) or not np.allclose(got0, v0, rtol=1e-9 if x64 else 3e-5, atol=1e-9 if x64 else 1e-6):
@@ -332,7 +340,7 @@ def run_case(case):
             ljac = np.log(np.abs(np.asarray(der, np.float64)))
             exp = lp_orig + ljac
             gotlp = np.asarray(tvar.log_prob, np.float64)
-            if not tvar.dist_node.per_obs:
+            if not case.get("per_obs", True):
                 exp = exp.sum()
             res.mon("density_change_of_variables")
             if gotlp.shape != np.shape(exp) or not np.all(np.abs(gotlp - exp) <= tolf(lp_orig, ljac)):
@@ -341,7 +349,7 @@ def run_case(case):
                               f"{np.asarray(exp).tolist()} (log p_orig={lp_orig.tolist()}, log|b'|={ljac.tolist()})", w)
                 break
             mlp = float(model.log_prob)
-            if abs(mlp - float(np.sum(exp))) > 2 * tolf(lp_orig, ljac) * max(1, len(np.ravel(exp))):
+            if off(mlp, float(np.sum(exp)), 2 * tolf(lp_orig, ljac) * max(1, len(np.ravel(exp)))):
                 res.violation("model-log-prob", f"point {j}: model.log_prob = {mlp} != {float(np.sum(exp))}", w)
                 break
             if bij != "Identity" and np.max(np.abs(ljac)) > 0.05:
@@ -385,7 +393,7 @@ def run_case(case):
                 der2 = jax.vmap(jax.grad(lambda s_: b2.forward(s_)))(t2) if shape else jax.grad(lambda s_: b2.forward(s_))(t2)
                 exp2 = lp2 + np.log(np.abs(np.asarray(der2, np.float64)))
                 g2 = np.asarray(M2.vars[tvar.name].log_prob, np.float64)
-                if not M2.vars[tvar.name].dist_node.per_obs:
+                if not case.get("per_obs", True):
                     exp2 = exp2.sum()
                 if g2.shape != np.shape(exp2) or not np.all(np.abs(g2 - exp2) <= tolf(lp2, exp2 - lp2)):
                     res.violation("density-wrong", f"in a copy of the model: log p_new(t) = {g2.tolist()} vs {np.asarray(exp2).tolist()}", w)
